@@ -382,6 +382,14 @@ fn targets() -> Vec<Target> {
         (OpSpec { pre_src: "1, ", pre_bytes: vec![1, 0, 0, 0], post_src: ", 2", post_bytes: vec![2, 0, 0, 0], ..plain(114, Size::Pascal(4), acc, false) }, "S", "S"),
         (plain(115, Size::Fixed { len: 5, nulless: true }, (0x83, 0xd9, 0), false), "", ""),
         (plain(116, Size::Pascal(4), acc, true), "", ""),
+        // the rest of the {zero, non-zero}^3 grid of (initial mask, velocity, acceleration)
+        (plain(117, Size::Block(4), (0, 7, 16), false), "", ""),
+        (plain(118, Size::Block(4), (0, 7, 0), false), "", ""),
+        (plain(119, Size::Block(4), (0, 0, 16), false), "", ""),
+        (plain(120, Size::Block(4), (0x77, 7, 0), false), "", ""),
+        (plain(121, Size::Block(4), (0x77, 0, 16), false), "", ""),
+        (plain(122, Size::Fixed { len: 16, nulless: true }, (0, 1, 0), false), "", ""),
+        (plain(123, Size::Pascal(4), (0, 0, 1), false), "", ""),
     ];
     let mut msgmap = String::from("!msgmap\n!ins_signatures\n");
     let mut anmmap = String::from("!anmmap\n!ins_signatures\n");
